@@ -227,6 +227,7 @@ class CFG:
             head = self._new("join", None, origin=s)
             self._link(frontier, head.id)
             self._loops.append(head.id)
+            head.loops = tuple(self._loops)
             t, f = self._cond(s.test, [head.id])
             after = self._new("join", None, origin=s)
             self._loop_stack.append((head.id, after.id))
